@@ -73,6 +73,8 @@ def run(ctx):
     rc2, mlog = vlib.sh([exe, out] + (["-v"] if ctx.replay else []), timeout=2400)
     m = re.search(r"CASES (\d+) MISMATCHES (\d+)", mlog)
     mism = int(m.group(2)) if m else -1
+    ms = re.search(r"STRINGS (\d+)", mlog)
+    strings_compared = int(ms.group(1)) if ms else 0
     if ctx.replay:
         print(mlog)
     for kind, d in sorted(summ["propfail"].items()):
@@ -104,6 +106,7 @@ def run(ctx):
                 "children, an enum signal and a standard signal",
         "distribution": summ["hist"],
         "model_mismatches": mism,
+        "string_renderings_compared_exactly": strings_compared,
         "property_predicate_failures": sorted(summ["propfail"]),
         "samples": summ["samples"][:2],
         "exhaustive": False,
